@@ -247,12 +247,15 @@ def evaluate_variables(
             variables=result,
             period_data=period_data,
         )
+        # Names are case-insensitive in expressions: the evaluator looks a name up in lower
+        # case, so that is how the variable has to be stored (a variable written `Threshold`
+        # would otherwise never be found)
         try:
             value = expr_parser.evaluate(expr, ctx)
-            result[name] = value
+            result[name.lower()] = value
         except expr_parser.ExpressionError:
             # Variable evaluation failed, set to None
-            result[name] = None
+            result[name.lower()] = None
 
     return result
 
